@@ -195,6 +195,15 @@ impl SourceView {
         }
 
         let mut lines = self.lines.lock().unwrap();
+
+        // another thread may have extended the index while we were waiting for the lock
+        if let Some(&line) = lines.get(idx) {
+            return Some(line);
+        }
+        if self.processed_until.load(Ordering::Relaxed) > self.source.len() {
+            return None;
+        }
+
         let mut done = false;
 
         while !done {
